@@ -233,6 +233,8 @@ def owners(div):
     kind = div.get("kind")
     fn = div.get("fn", "")
     obs = div.get("obs") if isinstance(div.get("obs"), dict) else {}
+    if kind == "threads":
+        return {"C20"}
     if kind == "crash" and fn == "wincmd":
         return {"C18"}
     if kind == "crash":
@@ -250,6 +252,8 @@ def owners(div):
         if fn in ("stop", "wait", "destroy") and kind == "hang":
             own |= {"C01"}
         return own
+    if isinstance(div.get("call"), dict) and div["call"].get("e") == "conc":
+        return {"C20"} | ({"C11"} if "kids" in (div.get("keys") or []) else set())
     if fn in ("start", "fork", "clone_start", "method", "consts") and isinstance(div.get("call"), dict) and "op" in div.get("call"):
         return {"C19"}
     keys = div.get("keys") or [div.get("key", "")]
@@ -668,6 +672,74 @@ def fam_wincmd(tier, outdir):
             "bad": bad, "samples": samp, "wall_tlc": time.time() - t0, "asan_replayed": nrec, "replay_stride": 1}
 
 
+def fam_conc(tier, outdir):
+    """C20: interleavings of two threads' starts at system-call granularity (ConcStart.tla), replayed with coroutines."""
+    scens = [1, 2] if tier == "quick" else [1, 2, 3]
+    agg = None
+    for sc in scens:
+        sdir = os.path.join(outdir, "s%d" % sc)
+        os.makedirs(sdir)
+        # dry run: how many kernel-relevant calls does each thread's sequence make?
+        cfg0 = os.path.join(sdir, "dry.cfg")
+        write_cfg(cfg0, "Spec", {"N1": 0, "N2": 0, "Scenario": sc}, [], view=None)
+        meta = os.path.join(sdir, "m0")
+        r = subprocess.run(["java", "-cp", vlib.TLA_CP, "tlc2.TLC", "-workers", "1", "-metadir", meta, "-config", cfg0, os.path.join(SPEC, "ConcStart.tla")],
+                           capture_output=True, cwd=SPEC)
+        shutil.rmtree(meta, ignore_errors=True)
+        # with N1 = N2 = 0 nothing is exported; build the dry script from a one-step model instead
+        write_cfg(cfg0, "Spec", {"N1": 1, "N2": 0, "Scenario": sc}, [], view=None)
+        r = subprocess.run(["java", "-cp", vlib.TLA_CP, "tlc2.TLC", "-workers", "1", "-metadir", meta, "-config", cfg0, os.path.join(SPEC, "ConcStart.tla")],
+                           capture_output=True, cwd=SPEC)
+        shutil.rmtree(meta, ignore_errors=True)
+        beh = [unescape_beh(l + b"\n") for l in r.stdout.splitlines() if l.startswith(b'<<"BEH"')]
+        if not beh:
+            raise Infra("ConcStart dry run produced no script:\n" + r.stdout.decode()[-1500:])
+        dry = beh[0]
+        dry[5] = dict(dry[5]); dry[5]["sched"] = []; dry[5].pop("exp", None)
+        v = run_scripts_traced([dry[:6]], sdir, "dry")[0]
+        obs = [t for t in (v or {}).get("trace", []) if t.get("e") == "obs" and t["call"].get("e") == "conc"]
+        if not obs:
+            raise Infra("ConcStart dry run failed: %s" % json.dumps(v)[:800])
+        n1, n2 = obs[0]["o"]["yields"]
+        cfg = os.path.join(sdir, "ConcStart.cfg")
+        write_cfg(cfg, "Spec", {"N1": n1, "N2": n2, "Scenario": sc}, ["MergeOK"])
+        res = run_tlc_export("conc%d" % sc, "ConcStart", cfg, sdir, tier, asan_stride=10 ** 9, tlc_workers=4)
+        res["yield_points"] = [n1, n2]
+        if agg is None:
+            agg = res
+            agg["family"] = "conc"
+        else:
+            for k in ("scripts", "replayed", "ok", "asan_replayed"):
+                agg[k] += res[k]
+            agg["bad"] += res["bad"]
+            agg["tlc"]["states"] += res["tlc"]["states"]; agg["tlc"]["transitions"] += res["tlc"]["transitions"]
+            agg["samples"] += res["samples"][:1]
+    return agg
+
+
+def fam_threads(tier, outdir):
+    """C20, the clauses a TLA+ trace cannot express: data races (ThreadSanitizer) and cross-talk under real concurrency."""
+    t0 = time.time()
+    exe = vlib.build_thr()
+    nt, cyc = (8, 40) if tier == "quick" else (16, 300)
+    env = dict(os.environ); env["TSAN_OPTIONS"] = "exitcode=66 halt_on_error=0 second_deadlock_stack=1"
+    try:
+        r = subprocess.run([exe, str(nt), str(cyc)], capture_output=True, text=True, env=env, timeout=900)
+    except subprocess.TimeoutExpired:
+        r = None
+    bad = []
+    if r is None or r.returncode != 0:
+        out = ("(timeout)" if r is None else (r.stdout[-1500:] + r.stderr[-2500:]))
+        fails = [l for l in (r.stdout.splitlines() if r else []) if l.startswith("FAIL")]
+        bad.append({"ok": 0, "kind": "threads", "fn": "threads", "call": {"fn": "threads", "threads": nt, "cycles": cyc},
+                    "obs": {"exit": None if r is None else r.returncode, "fails": fails[:5], "tsan": "WARNING: ThreadSanitizer" in out, "tail": out[-1200:]},
+                    "script": {"cmd": [exe, str(nt), str(cyc)]}})
+    n = nt * cyc + 1
+    return {"family": "threads", "tlc": {"states": 0, "transitions": 0, "depth": 0}, "scripts": n, "replayed": n, "ok": n if not bad else 0, "bad": bad,
+            "samples": [{"real_threads": nt, "cycles_each": cyc, "plus": "reader||writer on one child", "sanitizer": "ThreadSanitizer"}],
+            "wall_tlc": time.time() - t0, "asan_replayed": 0, "replay_stride": 1}
+
+
 def fam_wrapper(tier, outdir):
     cfg = os.path.join(outdir, "Wrapper.cfg")
     write_cfg(cfg, "Spec", {}, ["Injective"], view=None, action_constraint=None)
@@ -734,7 +806,7 @@ def run_tlc_plain(name, module, cfgpath, outdir, timeout=1500, workers=8):
     return st
 
 
-FAMILIES = {"wincmd": fam_wincmd, "wrapper": fam_wrapper, "faults": fam_faults, "env": lambda t, o: fam_launch("env", t, o), "wiring": lambda t, o: fam_launch("wiring", t, o), "options": lambda t, o: fam_launch("options", t, o),
+FAMILIES = {"threads": fam_threads, "conc": fam_conc, "wincmd": fam_wincmd, "wrapper": fam_wrapper, "faults": fam_faults, "env": lambda t, o: fam_launch("env", t, o), "wiring": lambda t, o: fam_launch("wiring", t, o), "options": lambda t, o: fam_launch("options", t, o),
             "destroy": fam_destroy, "status": fam_status, "run": fam_run, "stop": fam_stop, "life": fam_life, "poll": fam_poll, "stream": fam_stream, "drain": fam_drain}
 
 PROPS = {
@@ -752,6 +824,8 @@ PROPS = {
             "level_text": "The real Windows string code (process.windows.c, utf.windows.c, compiled unchanged against a stub windows.h, under ASan+UBSan) is run on an exhaustive bounded enumeration of argument vectors and environments; every record of what the stubbed CreateProcessW received is validated by TLC against spec/WinCmdLine.tla (Split(cmdline) = argv by the documented parsing rules, exact buffer size, environment block layout).",
             "level_note": "Trusted: TLC, the transcription of the documented Windows parsing rules (Split, self-checked on documented examples), the stub windows.h (MultiByteToWideChar maps bytes 1:1: ASCII alphabet only). Windows run-time behaviour is out of reach (DESIGN 8).",
             "technique": "trace validation by TLC: records from the real Windows string code checked against an independent TLA+ transcription of the Windows argument-splitting rules"},
+    "C20": {"families": ["conc", "threads"],
+            "level_note": "Trusted: TLC, simk, the coroutine scheduler (control changes hands only inside wrapped system calls, which is the library's only interaction point). The data-race clause is not expressible in a TLA+ trace: it is observed by ThreadSanitizer on a real-thread run against the real kernel (family 'threads'), stated as an observation instrument of a different kind.", "title": "documented thread-safety: distinct operations and distinct children race-free"},
     "C19": {"families": ["wrapper"], "title": "reproc++ is a faithful mapping of the C API",
             "level_text": "TLC enumerates the option records, wrapper methods and C return values of spec/Wrapper.tla (every field with several pairwise distinguishable values) and predicts what the C layer must receive and what the wrapper must return; each point is executed through the real reproc++ sources over a recording mock of the C API and compared.",
             "technique": "TLA+ mapping model (Wrapper.tla) enumerated by TLC; every point replayed through reproc++ over a mock C API (conformance)"},
@@ -835,7 +909,7 @@ def conclude(prop, tier, results, known, outdir, t0):
                        "script": d.get("script")}, f)
         if n < 25:
             # report only what an immediate re-run repeats (guards against the environment, DESIGN 5.8)
-            if d.get("script") is not None and d.get("kind") != "contract" and d.get("fn") != "wincmd" and replay(path, quiet=True) == 0:
+            if d.get("script") is not None and d.get("kind") not in ("contract", "threads") and d.get("fn") != "wincmd" and replay(path, quiet=True) == 0:
                 continue
             if d.get("kind") == "contract" and d.get("fn") != "wincmd" and n < 6 and not recheck_contract(d, os.path.join(OUT, prop, "recheck")):
                 continue
@@ -871,8 +945,8 @@ def conclude(prop, tier, results, known, outdir, t0):
         "wall_s": round(time.time() - t0, 1),
         "violations": confirmed,
     }
-    os.makedirs(os.path.join(VERIF, "evidence"), exist_ok=True)
-    with open(os.path.join(VERIF, "evidence", prop + ".json"), "w") as f:
+    os.makedirs(vlib.EVIDENCE, exist_ok=True)
+    with open(os.path.join(vlib.EVIDENCE, prop + ".json"), "w") as f:
         json.dump(ev, f, indent=1)
     print("%s %s: states=%d transitions=%d replayed=%d violations=%d known=%d foreign=%d wall=%.0fs" % (
         prop, tier, tlc_states, tlc_trans, replayed, confirmed, len(known_seen), foreign, time.time() - t0))
